@@ -14,6 +14,7 @@ package regattaserver
 //@ const cFailedPrecondition = 9
 //@ const cUnimplemented = 12
 //@ const cUnavailable = 14
+//@ const cInternal = 13
 
 // validity predicates transcribed from the property statement and proto/regatta.proto
 //@ pure func malformedRange(r *regattapb.RangeRequest) bool = r == nil || len(r.Table) == 0 || len(r.Key) == 0 || r.Limit < 0 || (r.KeysOnly && r.CountOnly)
@@ -39,8 +40,8 @@ package regattaserver
 //@   params s, ctx, req
 //@   results resp, err
 //@   requires [C16.pre.iterate] !malformedRange(req) && !unsupportedRange(req)
-//@   ensures s.scalls == old(s.scalls) + 1
-//@   modifies s.scalls
+//@   ensures s.scalls == old(s.scalls) + 1 && s.lastSeq == resp
+//@   modifies s.scalls, s.lastSeq
 //@ iface regattaserver.KVService.Put
 //@   assumed
 //@   params s, ctx, req
@@ -81,6 +82,59 @@ package regattaserver
 //@   ensures [C16.codes.range]    err != nil ==> codeOf(err) == cInvalidArgument || codeOf(err) == cUnimplemented || codeOf(err) == cNotFound || codeOf(err) == cUnavailable || codeOf(err) == cFailedPrecondition
 //@   ensures [C16.once.range]     s.Storage.scalls <= old(s.Storage.scalls) + 1
 //@   modifies s.Storage.scalls
+
+// KVServer.IterateRange: the same refusals as Range, before the storage is touched; then every chunk
+// the storage's sequence yields is sent, in order, nothing else is sent, and the call ends OK only at
+// the end of the sequence (or when the caller went away).
+//@ import iter "github.com/jamf/regatta/util/iter"
+//@ ghostfield any.npull Int
+//@ ghostfield any.pseq Ref
+//@ ghostfield any.nsent Int
+//@ ghostfield any.sentm seq[Ref]
+//@ ghostfield any.lastSeq Ref
+//@ ghostfield any.drained Bool
+//@ uninterp func seqItem(s Ref, i int) *regattapb.RangeResponse
+// the pull adapter (verified in util/iter up to the coroutine switch): ASSUMED to hand out the
+// elements of the sequence one by one
+//@ func iter.Pull[*regattapb.RangeResponse]
+//@   assumed
+//@   params seq
+//@   results next, stop
+//@   ensures next != nil && stop != nil && next.pseq == seq && next.npull == 0 && !next.drained
+//@   modifies nothing
+//@ func pullNext
+//@   assumed
+//@   results v, ok
+//@   ensures ok ==> self.npull == old(self.npull) + 1 && v == seqItem(self.pseq, old(self.npull)) && self.drained == old(self.drained)
+//@   ensures !ok ==> self.npull == old(self.npull) && self.drained
+//@   modifies self.npull, self.drained
+//@ func pullStop
+//@   assumed
+//@   modifies nothing
+//@ iface regattapb.KV_IterateRangeServer.Context
+//@   assumed
+//@   ensures result != nil
+//@   modifies nothing
+//@ iface regattapb.KV_IterateRangeServer.Send
+//@   assumed
+//@   params st, m
+//@   results err
+//@   ensures err == nil ==> st.nsent == old(st.nsent) + 1 && st.sentm[old(st.nsent)] == m
+//@   ensures err != nil ==> st.nsent == old(st.nsent)
+//@   ensures forall i int :: 0 <= i && i < old(st.nsent) ==> st.sentm[i] == old(st.sentm[i])
+//@   modifies st.nsent, st.sentm
+//@ func (*KVServer).IterateRange
+//@   functype next pullNext
+//@   functype stop pullStop
+//@   results err
+//@   requires s != nil && s.Storage != nil && srv != nil
+//@   requires [fresh.stream] srv.nsent == 0
+//@   ensures [C16.reject.iterate] malformedRange(req) || unsupportedRange(req) ==> err != nil && s.Storage.scalls == old(s.Storage.scalls) && srv.nsent == 0 && (codeOf(err) == cInvalidArgument || codeOf(err) == cUnimplemented)
+//@   ensures [C16.codes.iterate]  err != nil ==> codeOf(err) == cInvalidArgument || codeOf(err) == cUnimplemented || codeOf(err) == cNotFound || codeOf(err) == cUnavailable || codeOf(err) == cFailedPrecondition || codeOf(err) == cInternal
+//@   ensures [C09.serve.order] forall i int :: 0 <= i && i < srv.nsent ==> srv.sentm[i] == seqItem(s.Storage.lastSeq, i)
+//@   modifies s.Storage.scalls, s.Storage.lastSeq, srv.nsent, srv.sentm, family(G_any_npull), family(G_any_drained)
+//@   loop 0 invariant srv.nsent == pull.npull && pull.pseq == s.Storage.lastSeq && pull != nil && ctx != nil
+//@   loop 0 invariant forall i int :: 0 <= i && i < srv.nsent ==> srv.sentm[i] == seqItem(s.Storage.lastSeq, i)
 
 //@ func (*KVServer).Put
 //@   results resp, err
@@ -336,6 +390,15 @@ package regattaserver
 //@   loop 0 invariant [C06.stream.next] logRange.FirstIndex == server.expect && 1 <= logRange.FirstIndex && logRange.FirstIndex <= logRange.LastIndex
 //@   loop 1 invariant -1 <= rangeindex && rangeindex < len(entries) && len(commands) == rangeindex + 1 && fresh(commands) && logRange.FirstIndex == server.expect
 //@   loop 1 invariant forall j int :: 0 <= j && j <= rangeindex ==> commands[j] != nil && commands[j].LeaderIndex == entries[j].Index && commands[j].Command != nil && commands[j].Command.LeaderIndex != nil && *commands[j].Command.LeaderIndex == entries[j].Index
+
+// NewLogServer: the server answers from the table service and the log reader it was given, and cuts
+// batches at the configured message size - the transport default when none is configured (a zero
+// limit would make every non-empty range come back empty)
+//@ func NewLogServer
+//@   requires logger != nil
+//@   ensures [C06.new.wiring] result != nil && fresh(result) && result.Tables == ts && result.LogReader == lr && result.Log != nil
+//@   ensures [C06.new.size] result.maxMessageSize == (maxMessageSize == 0 ? 4194304 : maxMessageSize)
+//@   modifies nothing
 
 // ---------------------------------------------------------------- server construction (C17)
 
